@@ -183,6 +183,7 @@ class C19(engine.Property):
         "laws-assigned-during-construction-through-attributes",
         "whitelist-read-by-subscript",
         "universe-nested-in-another",
+        "call-with-warnings-as-errors",
         "assignment-through-item-syntax",
     ]
 
@@ -197,6 +198,7 @@ class C19(engine.Property):
             for k in w:
                 if k != "bad_assign":
                     w[k] *= 3
+        cfg["p_w_error"] = rng.choice([0.0, 0.0, 0.15])
         return cfg
 
     def _make_config(self, rng):
@@ -266,6 +268,14 @@ class C19(engine.Property):
         return op
 
     def next_op(self, rng, cfg, st):
+        op = self._next_op(rng, cfg, st)
+        if op is not None and cfg.get("p_w_error") and rng.random() < cfg["p_w_error"]:
+            # the application runs with warnings turned into errors
+            op["w_error"] = True
+            st.stats["probe:call-with-warnings-as-errors"] += 1
+        return op
+
+    def _next_op(self, rng, cfg, st):
         if getattr(st, "ended", False):
             return None
         if st.pending is None:
